@@ -179,6 +179,8 @@ pub struct StateDump {
     pub manual_compaction_pending: bool,
     pub needs_compaction: bool,
     pub shutting_down: bool,
+    /// `SeekCompactionMetadata` of the current version: (file number, level)
+    pub seek_compaction: Option<(u64, usize)>,
 }
 
 /// Internal transitions recorded for trace validation.
@@ -243,6 +245,18 @@ pub enum Event {
         queue: Vec<(usize, bool, bool, usize)>,
         last: usize,
         operations: usize,
+    },
+    /// a read asked for a seek charge (recorded only after `set_seek_events(true)`): `kind` is
+    /// "get" (`DB::get` reached `Version::get`) or "sample" (`Version::record_read_sample`), the
+    /// internal key looked up (user key, sequence number), the (level, file number) handed to
+    /// `Version::update_stats` (`None` when it was not called or had nothing to charge) and the file
+    /// numbers per level of the version that was searched
+    Seek {
+        kind: &'static str,
+        user_key: Vec<u8>,
+        sequence: u64,
+        charged: Option<(usize, u64)>,
+        version_files: Vec<Vec<u64>>,
     },
 }
 
@@ -955,6 +969,31 @@ pub fn set_level_one_max_bytes(bytes: u64) {
 
 pub(crate) fn level_one_max_bytes() -> Option<u64> {
     match LEVEL_ONE_MAX_BYTES.load(std::sync::atomic::Ordering::SeqCst) {
+        0 => None,
+        bytes => Some(bytes),
+    }
+}
+
+static SEEK_EVENTS: std::sync::atomic::AtomicBool = std::sync::atomic::AtomicBool::new(false);
+static READ_SAMPLE_PERIOD: std::sync::atomic::AtomicU64 = std::sync::atomic::AtomicU64::new(0);
+
+/// Record an `Event::Seek` for every get that reaches the tables and every read sample.
+pub fn set_seek_events(enabled: bool) {
+    SEEK_EVENTS.store(enabled, std::sync::atomic::Ordering::SeqCst);
+}
+
+pub(crate) fn seek_events() -> bool {
+    SEEK_EVENTS.load(std::sync::atomic::Ordering::SeqCst)
+}
+
+/// Override the mean number of bytes an iterator reads between two read samples for every
+/// iterator of this process; 0 restores the built-in 1 MiB.
+pub fn set_read_sample_period(bytes: u64) {
+    READ_SAMPLE_PERIOD.store(bytes, std::sync::atomic::Ordering::SeqCst);
+}
+
+pub(crate) fn read_sample_period() -> Option<u64> {
+    match READ_SAMPLE_PERIOD.load(std::sync::atomic::Ordering::SeqCst) {
         0 => None,
         bytes => Some(bytes),
     }
